@@ -3,16 +3,17 @@
 # produce the same executions (schedule trace hashes of every bubble, generated inputs,
 # step counts) in separate processes and under different GOMAXPROCS.
 # usage: selftest-determinism.sh [runs-per-process] [seeds...]
-. /verif/scripts/env.sh
-cd /verif
+ROOT=$(cd "$(dirname "$0")/.." && pwd)
+. "$ROOT/scripts/env.sh"
+cd "$ROOT"
 runs=${1:-12}; shift
 seeds=${@:-"1 7 42"}
 ./scripts/build.sh || exit 2
 ./scripts/build.sh race || exit 2
-out=/verif/build/selftest; rm -rf $out; mkdir -p $out
+out=$ROOT/build/selftest; rm -rf $out; mkdir -p $out
 fail=0
 for prop in C08 C09 C16 C17 C18 C19 C20; do
-  bin=/verif/build/harness.test; [ $prop = C20 ] && bin=/verif/build/harness.race.test
+  bin=$ROOT/build/harness.test; [ $prop = C20 ] && bin=$ROOT/build/harness.race.test
   for seed in $seeds; do
     pids=""
     for procs in 1 4 16; do for rep in a b; do
